@@ -321,3 +321,27 @@ def run(ctx):
     from .c05 import tmp_unique_in_workspace
     n10 = tmp_unique_in_workspace(ctx, 'C14.10', 'the automatic checkpoint covers only the path the tool was given, so a rewind cannot bring it back.')
     ctx.floor('C14.10', 'tmp + rename pairs in rip-workspace / rip-tools', n10, 1)
+
+    # ---------------------------------------------------------------- C14.11
+    ctx.rule('C14.11', 'what a rewind destroys, its undo record can bring back: the undo map of rewind_to_checkpoint holds, per covered path, the previous bytes of a file or "absent" — '
+             'so the only destructive file-system calls reachable from it inside rip_workspace are fs::write and fs::remove_file (plus create_dir_all, which destroys nothing). '
+             'A remove_dir_all / rename / set_len / truncating open on the way cannot be rolled back when a later entry fails, and the failed rewind no longer leaves the workspace as it was.')
+    from ..effects import site_effects
+    ALLOWED11 = r'^std::fs::(write|remove_file|create_dir_all|create_dir)$'
+    n11 = 0
+    bad11 = []
+    for p11 in sorted(P.reach_fns(['rip_workspace::Workspace::rewind_to_checkpoint'])):
+        g11 = P.fns.get(p11)
+        if g11 is None or g11.crate != 'rip_workspace':
+            continue
+        for s11 in g11.sites():
+            if s11.callee in P.fns or 'FsWrite' not in site_effects(s11):
+                continue
+            n11 += 1
+            if not re.search(ALLOWED11, s11.callee):
+                bad11.append((g11, s11))
+    ctx.floor('C14.11', 'file-system mutations reachable from rewind_to_checkpoint', n11, 4)
+    ctx.ob('C14.11', 'rip_workspace::Workspace::rewind_to_checkpoint', 'destroys-only-what-undo-restores', not bad11,
+           ('%d file-system mutations reachable from the rewind, all of them fs::write / remove_file / create_dir_all' % n11) if not bad11 else
+           '%s in %s: the undo record (bytes or "absent" per path) cannot restore what this call destroys' % (bad11[0][1].callee, bad11[0][0].path),
+           line=bad11[0][1].line if bad11 else 0)
